@@ -41,6 +41,8 @@ type Stats struct {
 	EmptyRestarts                 int // bootstrap members restarted from an empty storage
 	VoteGrantsSent, AcksSent      int // messages checked by the durable-vote / durable-ack rules
 	CommitQuorumChecks            int // leader commit advances checked against the voters' durable logs
+	HeartbeatsChecked             int
+	AppendsChecked                int
 }
 
 type nodeTrack struct {
@@ -223,13 +225,17 @@ func (o *Oracle) Feed(rec *Record) {
 			o.S.VoteGrantsSent++
 			k := [2]uint64{m.Msg.From, m.Msg.Term}
 			if c, ok := o.granted[k]; ok && c != m.Msg.To {
-				o.viol("C01", "double-vote", seq, "node %d grants its term-%d vote to %d after granting it to %d", m.Msg.From, m.Msg.Term, m.Msg.To, c)
+				for _, pp := range []string{"C01", "C02", "C03"} {
+					o.viol(pp, "double-vote", seq, "node %d grants its term-%d vote to %d after granting it to %d", m.Msg.From, m.Msg.Term, m.Msg.To, c)
+				}
 			}
 			o.granted[k] = m.Msg.To
 			if d := rec.SD; d != nil && !(d.Term > m.Msg.Term || (d.Term == m.Msg.Term && d.Vote == m.Msg.To)) {
 				o.viol("C01", "vote-not-durable", seq, "node %d sends a granting MsgVoteResp(term %d) to %d while its persisted hard state is term %d vote %d",
 					m.Msg.From, m.Msg.Term, m.Msg.To, d.Term, d.Vote)
 				o.viol("C03", "vote-not-durable", seq, "node %d sends a granting MsgVoteResp(term %d) to %d while its persisted hard state is term %d vote %d",
+					m.Msg.From, m.Msg.Term, m.Msg.To, d.Term, d.Vote)
+				o.viol("C02", "vote-not-durable", seq, "node %d sends a granting MsgVoteResp(term %d) to %d while its persisted hard state is term %d vote %d",
 					m.Msg.From, m.Msg.Term, m.Msg.To, d.Term, d.Vote)
 			}
 		}
@@ -252,6 +258,59 @@ func (o *Oracle) Feed(rec *Record) {
 		o.pending[ev.N] = rd
 		for _, mb := range rd.MsgBodies {
 			o.msgType[mb.ID] = mb.Msg.Type
+		}
+		// message contents against the sender's own state after the step
+		var post *NodeState
+		for i := range rec.Nodes {
+			if rec.Nodes[i].ID == ev.N {
+				post = &rec.Nodes[i]
+			}
+		}
+		if post != nil && post.Alive {
+			for _, mb := range rd.MsgBodies {
+				m := mb.Msg
+				switch m.Type {
+				case 8: // MsgHeartbeat: the commit index offered must not exceed what the follower is known to hold
+					if post.Role == 2 && post.Term == m.Term {
+						for _, pr := range post.Prs {
+							if pr.ID == m.To {
+								o.S.HeartbeatsChecked++
+								if m.Commit > pr.Match {
+									o.viol("C03", "heartbeat-commit-above-match", seq, "leader %d sends a heartbeat with commit %d to %d whose match index is %d", ev.N, m.Commit, m.To, pr.Match)
+									o.viol("C02", "heartbeat-commit-above-match", seq, "leader %d sends a heartbeat with commit %d to %d whose match index is %d", ev.N, m.Commit, m.To, pr.Match)
+								}
+							}
+						}
+					}
+				case 3: // MsgApp: prev entry and entries are a slice of the sender's log
+					if post.Role == 2 && post.Term == m.Term && len(post.Log) > 0 {
+						at := func(i uint64) (EntProj, bool) {
+							k := int(i) - int(post.Log[0].I)
+							if k >= 0 && k < len(post.Log) && post.Log[k].I == i {
+								return post.Log[k], true
+							}
+							return EntProj{}, false
+						}
+						o.S.AppendsChecked++
+						if e, ok := at(m.Index); ok && e.T != m.LogTerm {
+							o.viol("C02", "msgapp-prev-not-from-log", seq, "leader %d sends MsgApp with prev (%d, term %d) but its log has term %d there", ev.N, m.Index, m.LogTerm, e.T)
+						}
+						for k, me := range m.Ents {
+							if me.I != m.Index+1+uint64(k) {
+								o.viol("C02", "msgapp-not-contiguous", seq, "leader %d sends MsgApp after %d whose entry %d has index %d", ev.N, m.Index, k, me.I)
+								break
+							}
+							if e, ok := at(me.I); ok && !sameEnt(e, me) {
+								o.viol("C02", "msgapp-not-from-log", seq, "leader %d sends entry %+v but its log holds %+v", ev.N, me, e)
+								break
+							}
+						}
+						if m.Commit > post.Commit {
+							o.viol("C02", "msgapp-commit-above-own", seq, "leader %d sends commit %d above its own commit %d", ev.N, m.Commit, post.Commit)
+						}
+					}
+				}
+			}
 		}
 		// C01: vote responses from a learner
 		if havePre {
